@@ -370,12 +370,16 @@ fn verify_rebuild(source_path: &Path, target_path: &Path, options: &RebuildOptio
     let mut source_archive = Archive::open(source_path)?;
     let mut target_archive = Archive::open(target_path)?;
 
-    let source_files = source_archive
-        .list()
-        .unwrap_or_else(|_| source_archive.list_all().unwrap_or_default());
-    let target_files = target_archive
-        .list()
-        .unwrap_or_else(|_| target_archive.list_all().unwrap_or_default());
+    // A listing error must fail verification: an empty fallback list on both
+    // sides would compare equal and report a successful verification
+    let source_files = match source_archive.list() {
+        Ok(files) => files,
+        Err(_) => source_archive.list_all()?,
+    };
+    let target_files = match target_archive.list() {
+        Ok(files) => files,
+        Err(_) => target_archive.list_all()?,
+    };
 
     // Calculate expected file count after filtering
     let mut expected_files = Vec::new();
